@@ -30,7 +30,8 @@ EXPLANATION = (
     "convert_format on every file, so for a net of the current format it must be the identity: every store into the "
     "net that precedes its `format_version >= current` return (with the helper steps inlined) is guarded by the "
     "*absence* of the key it sets (`k not in net`, `not hasattr(net, k)`, `net.get(k) is None`), never by a test on the "
-    "value, and add_default_components is called without overwrite. (R15.6) custom to_dict/from_dict pairs agree unconditionally: to_dict never removes an entry from the "
+    "value, and add_default_components is called without overwrite. (R15.7) the isinstance hook handed to the encoder excepts only the pandapipes net classes and delegates every other object "
+    "to pandapower's isinstance_partial (which keeps tuples tagged). (R15.6) custom to_dict/from_dict pairs agree unconditionally: to_dict never removes an entry from the "
     "dictionary it returns and from_dict never invents a value (setdefault / constant fallback) the writer did not store. "
     "(R15.5) a to_dict that copies private attributes "
     "out of a library object (scipy's interp1d.__dict__) converts them to JSON-native values explicitly (.item(), "
@@ -482,4 +483,35 @@ def r15_6(run):
     run.floor(3)
 
 
-RULES = [("R15.6", r15_6), ("R15.1", r15_1), ("R15.2", r15_2), ("R15.3", r15_3), ("R15.4", r15_4), ("R15.5", r15_5)]
+def r15_7(run):
+    """the type test handed to the JSON encoder refines pandapower's: pandapower's isinstance_partial also denies that a tuple is a
+    list-like built-in (so tuples are written with a type tag and come back as tuples).  The pandapipes hook may add cases (its own
+    net classes) but must delegate every other object to pandapower's hook with the same arguments"""
+    from ..arrnf import ANF, norm_cond, show as tshow, walk
+    ix = run.index
+    f = ix.func(IU + ".isinstance_partial")
+    run.analysed(f)
+    ps = f.params()
+    r = ANF(ix, f).run()
+    rets = sorted(r.returns(), key=lambda e: e.seq)
+    dele = [e for e in rets if e.value[0] == "call" and e.value[1][0] == "x" and e.value[1][1].startswith("pandapower") and e.value[1][1].endswith("isinstance_partial")
+            and e.value[2] == tuple(("n", p_) for p_ in ps)]
+    run.ob("isinstance_partial|delegates-to-pandapower", len(dele) == 1 and dele[0] is rets[-1],
+           "objects that are not pandapipes nets are classified by pandapower's isinstance_partial(obj, cls)", run.where(f, f.node),
+           detail="; ".join(tshow(e.value)[:80] for e in rets))
+    special = [e for e in rets if e not in dele]
+    ok = all(e.value == ("c", False) and e.cond and all(
+        any(x[0] == "call" and x[1] == ("x", "builtins.isinstance") and x[2][0] == ("n", ps[0]) for x in walk(c_)) for c_, p_ in e.cond[-1:]) for e in special)
+    run.ob("isinstance_partial|only-net-classes-excepted", ok and len(special) >= 1,
+           "the only special cases are pandapipes net classes, which are not to be treated as plain dicts", run.where(f, f.node))
+    # and it is this hook that to_json hands to the encoder
+    tj = ix.func(IO + ".to_json")
+    rt = ANF(ix, tj).run()
+    d = [c for c in rt.calls() if c.fn == ("x", "json.dumps")]
+    hook = dict(d[0].kw).get("isinstance_func") if d else None
+    run.ob("to_json|uses-the-pandapipes-hook", hook == ("f", f.qualname), "to_json passes this hook as isinstance_func", run.where(tj, tj.node),
+           detail=tshow(hook) if hook else None)
+    run.floor(3)
+
+
+RULES = [("R15.7", r15_7), ("R15.6", r15_6), ("R15.1", r15_1), ("R15.2", r15_2), ("R15.3", r15_3), ("R15.4", r15_4), ("R15.5", r15_5)]
